@@ -42,8 +42,11 @@ T = {
             'fail with the same class, message and line',
             'printer obeys each syntax\'s documented expressibility limits'),
     'C08': ('fault injection at every namespace-value invocation point of '
-            'generated programs; stack identity oracle',
-            'faults are exceptions / dtml-return raised by namespace values'),
+            'generated programs, and self-rendering templates run into the '
+            'interpreter\'s recursion limit from inside every block; stack '
+            'identity oracle',
+            'faults are exceptions / dtml-return raised by namespace values, '
+            'and the RecursionError of the interpreter at eight alignments'),
     'C09': ('exhaustive truth-table enumeration of condition chains + '
             'Hypothesis nestings vs reference interpreter with call log',
             'reference interpreter trusted'),
